@@ -845,10 +845,14 @@ def _build_or_reject(r):
     except ValueError:
         # raised by cirq's own constructors / parameter resolution while *building* the input (not by the code under test)
         raise Reject("cirq refuses to build the recipe (ValueError)")
-    except TypeError:
-        # param_resolver of a CircuitOperation maps the duration symbol of a WaitGateWithUnit to an expression: parameter
-        # resolution of that gate (not the wire format) fails; such a program cannot be mapped at all -> outside C16's domain
-        raise Reject("cirq cannot resolve the recipe's CircuitOperation parameters")
+    except (TypeError, AttributeError):
+        # Decided from the recipe: a CircuitOperation whose param_resolver maps a symbol to an EXPRESSION is outside the format's
+        # vocabulary (op_deserializer documents: values must be str, Symbol or number).  The unit-carrying gates of the body
+        # (WaitGateWithUnit, AnalogDetune*) cannot even be resolved with an expression (TypeError / AttributeError in their own
+        # parameter protocol, not in the wire format), so such a program cannot be mapped at all.  Any other recipe: let it crash.
+        if any(v[0] in ("add", "mul", "neg", "pow") for p in _programs_of(r) for co in p.get("cops", []) for v in co.get("params", {}).values()):
+            raise Reject("CircuitOperation parameter mapped to an expression cannot be resolved by a unit-carrying gate of its body")
+        raise
     return c
 
 
